@@ -1,5 +1,5 @@
 (* Lradiotap — the round trip theorem for headers made of radiotap namespaces (uses the layout lemmas of LradiotapRt.v) *)
-From GP Require Import Base ListX Codec MiscLib LradiotapModel LradiotapProofs LradiotapRt.
+From GP Require Import Base ListX Codec MiscLib LradiotapModel LradiotapProofs LradiotapRt LradiotapRt2a.
 From Coq Require Import Lia ZifyBool ZifyNat.
 Open Scope Z_scope.
 Ltac Zify.zify_post_hook ::= Z.div_mod_to_equations.
@@ -40,31 +40,26 @@ Proof.
   assert (LW : zlen W = 4 + 4 * zlen ps) by (unfold W; rewrite zlen_app, zlen_pw_bytes; reflexivity).
   assert (ED3 : data = W ++ CB ++ payload).
   { unfold data, hdr, W, body, rt_put16. rewrite <- !app_assoc. reflexivity. }
-  unfold rt_decode_into.
-  destruct (zlen data <? 65535) eqn:E1; [|lia].
-  destruct (zlen data <? 8) eqn:E8; [lia|].
+  assert (Eoff : off = 4 + zlen body) by reflexivity.
+  assert (Roff : 8 <= off <= zlen data) by lia.
   assert (I0 : cd_idx data 0 = Ok (rt_version l)) by (rewrite ED1; apply (idx_at [] _ _ 0); reflexivity).
   assert (L2 : rt_le16 data 2 = Ok off).
-  { rewrite ED1. rewrite (le16_at [rt_version l; 0] lo hi _ 2 eq_refl). f_equal. unfold lo, hi. lia. }
+  { transitivity (Ok (lo + 256 * hi) : outcome Z); [rewrite ED1; exact (le16_at [rt_version l; 0] lo hi (rt_put32 p ++ pw_bytes qs ++ CB ++ payload) 2 eq_refl)|f_equal; unfold lo, hi; lia]. }
   assert (L4 : rt_le32 data 4 = Ok p).
   { rewrite ED1. apply le32_put32; [reflexivity|]. destruct qs; cbn in Hch; tauto. }
-  rewrite I0. cbn [ml_bind]. rewrite cd_slc_ok by lia. cbn [ml_bind]. rewrite L2. cbn [ml_bind].
-  destruct (off >? zlen data) eqn:E2; [lia|].
-  rewrite cd_slc_ok by lia. cbn [ml_bind]. rewrite L4. cbn [ml_bind].
   (* the Present chain *)
   pose proof (rt_present_loop_layout qs p pre8 (CB ++ payload) (length data) [p] Hch) as PL.
   assert (L8 : zlen pre8 = 8) by reflexivity. rewrite L8 in PL. rewrite <- ED2 in PL. change (8 - 4) with 4 in PL.
-  rewrite PL; [|rewrite ED2, !app_length; unfold pw_bytes; clear; induction qs; cbn [map concat length]; rewrite ?app_length; cbn [length]; lia|lia|lia].
-  change ([p] ++ qs) with ps. replace (4 + 4 * zlen qs) with (4 * zlen ps) by lia.
-  rewrite u16_small by lia.
-  rewrite firstn_all2 by (unfold zlen; lia).
+  assert (Lq : (length qs <= length data)%nat).
+  { pose proof (zlen_pw_bytes qs) as LP. rewrite ED2, !app_length. unfold zlen in LP. lia. }
+  specialize (PL Lq ltac:(lia) ltac:(lia)). change ([p] ++ qs) with ps in PL.
   (* the namespaces *)
   pose proof (rt_ns_loop_layout ps rvs false W [] payload Hrc ltac:(lia)) as NL.
-  rewrite LW in NL. fold CB in NL. rewrite <- ED3 in NL. replace (4 * zlen ps + 4) with (4 + 4 * zlen ps) by lia.
-  rewrite NL; [|lia|discriminate]. cbn [app].
-  (* payload, flags, contents *)
-  assert (SP : cd_slc data off (zlen data) = Ok payload) by (unfold data; apply slc_tail; lia).
-  rewrite SP. cbn [ml_bind rt_flags0]. unfold rvs at 1. cbn [ml_bind]. rewrite Eq. cbn [ml_bind].
+  rewrite LW in NL. fold CB in NL. rewrite <- ED3 in NL. specialize (NL ltac:(lia) ltac:(unfold ps; discriminate)). cbn [app] in NL.
+  assert (SP : cd_slc data off (zlen data) = Ok payload) by (unfold data; apply slc_tail; rewrite ?zlen_app; lia).
   assert (SC : cd_slc data 0 off = Ok hdr) by (unfold data; apply slc_head; lia).
-  rewrite SC. cbn [ml_bind]. rewrite Lh. reflexivity.
+  rewrite Lh.
+  apply (rt_decode_eval old data (rt_version l) off p ps rvs (4 + 4 * zlen qs) payload (nth 0 (nth 1 v0 []) 0) q hdr); try assumption; try lia.
+  - replace (4 + 4 * zlen qs + 4) with (4 + 4 * zlen ps) by lia. exact NL.
+  - reflexivity.
 Qed.
